@@ -80,7 +80,7 @@ def gen_case(rng, ctx):
         return {"ds": ds, "scheme": sch, "dcls": "blocks", "scls": scls, "blocks": blocks, "pick": rng.randrange(10 ** 6)}
     if rng.random() < 0.07 and "D" not in ctx.mode:
         # nine or ten elements in blocks of 3-4 with cyclic majorities: internal ids >= 8 sit inside a non-trivial component
-        cls, ds = gen.dataset(rng, cls="D11", n=rng.choice([9, 9, 10]), m=rng.choice([3, 3, 5, 6]), mmax=6)
+        cls, ds = gen.dataset(rng, cls="D11", n=rng.choice([9, 9, 10] if thorough else [9]), m=rng.choice([3, 3, 5, 6]), mmax=6)
         ds = libx.normalise_raw(ds)
         return {"ds": ds, "scheme": gen.scheme(rng, "S1 S1 S11 S3")[1], "dcls": "D11-9plus", "scls": "S1"}
     if rng.random() < 0.2:
